@@ -390,8 +390,14 @@ func (vc *VC) globalLoad(st *State, p VPtr, t types.Type, idx *Term) (Value, boo
 		n := int64(len(info.sliceLit))
 		vc.fact(B.And(B.Lt(B.Int(0), ptr), B.Le(B.Add(ptr, B.Int(n)), B.Big(maxAddr))))
 		M0 := vc.epochVar(0, "M")
+		Mcur := vc.heapGet(st, "M")
 		for i, v := range info.sliceLit {
 			vc.fact(B.Eq(B.Select(M0, B.Add(ptr, B.Int(int64(i)))), B.Big(v)))
+			if Mcur != M0 {
+				// "never written": the contents also hold on the byte heap as it is at this load
+				// (after a callee with unknown effects has run)
+				vc.fact(B.Eq(B.Select(Mcur, B.Add(ptr, B.Int(int64(i)))), B.Big(v)))
+			}
 		}
 		vc.note("assumed: the backing array of read-only slice literal %s is never written (contents stated on the entry byte heap)", strings.TrimPrefix(name, "G_"))
 		sv := VSlice{ptr, B.Int(n), B.Int(n)}
